@@ -1,0 +1,558 @@
+//go:build verif
+
+package main
+
+// Verification hooks, only compiled with -tags verif.
+//
+// verifEvent appends one JSON line per event to the file named by
+// GARBLE_VERIF_TRACE (O_APPEND, one write per line, so lines from the many
+// garble processes of a build are totally ordered without any clock).
+// GARBLE_VERIF_GATE turns chosen events into crash points or hold points.
+// "garble verif <sub>" exposes unexported pure functions over JSON lines.
+
+import (
+	"bufio"
+	"bytes"
+	"encoding/hex"
+	"encoding/json"
+	"fmt"
+	"go/ast"
+	"go/importer"
+	"go/parser"
+	"go/token"
+	"go/types"
+	"hash"
+	mathrand "math/rand"
+	"os"
+	"path/filepath"
+	"slices"
+	"sort"
+	"strconv"
+	"strings"
+	"syscall"
+	"time"
+
+	"golang.org/x/tools/go/ssa"
+	"mvdan.cc/garble/internal/linker"
+)
+
+var (
+	verifTracePath = os.Getenv("GARBLE_VERIF_TRACE")
+	verifTraceFile *os.File
+	verifSeq       int
+	verifID        = os.Getenv("GARBLE_VERIF_ID")
+	verifNames     = os.Getenv("GARBLE_VERIF_NAMES") == "1"
+	verifGates     []verifGateSpec
+	verifGateDir   = os.Getenv("GARBLE_VERIF_GATE_DIR")
+)
+
+type verifGateSpec struct {
+	action string // crash | hold
+	event  string
+	n      int
+}
+
+type verifRecordingHash struct {
+	hash.Hash
+	buf bytes.Buffer
+}
+
+func (h *verifRecordingHash) Reset()                      { h.buf.Reset(); h.Hash.Reset() }
+func (h *verifRecordingHash) Write(p []byte) (int, error) { h.buf.Write(p); return h.Hash.Write(p) }
+
+func init() {
+	linker.VerifEvent = verifEvent
+	if verifTracePath != "" {
+		hasher = &verifRecordingHash{Hash: hasher}
+	}
+	// GARBLE_VERIF_GATE = "crash@event#n;hold@event#n"
+	for _, spec := range strings.Split(os.Getenv("GARBLE_VERIF_GATE"), ";") {
+		action, rest, ok := strings.Cut(spec, "@")
+		if !ok {
+			continue
+		}
+		ev, nstr, _ := strings.Cut(rest, "#")
+		n, _ := strconv.Atoi(nstr)
+		if n == 0 {
+			n = 1
+		}
+		verifGates = append(verifGates, verifGateSpec{action, ev, n})
+	}
+}
+
+func verifEvent(name string, kv ...any) {
+	if verifTracePath != "" {
+		if verifTraceFile == nil {
+			f, err := os.OpenFile(verifTracePath, os.O_WRONLY|os.O_APPEND|os.O_CREATE, 0o666)
+			if err != nil {
+				panic(err)
+			}
+			verifTraceFile = f
+		}
+		verifSeq++
+		m := map[string]any{"ev": name, "pid": os.Getpid(), "ppid": os.Getppid(), "seq": verifSeq}
+		if verifID != "" {
+			m["id"] = verifID
+		}
+		if sharedTempDir != "" {
+			m["sh"] = filepath.Base(sharedTempDir)
+		}
+		for i := 0; i+1 < len(kv); i += 2 {
+			if sum, ok := kv[i+1].([32]byte); ok {
+				m[kv[i].(string)] = hex.EncodeToString(sum[:])
+				continue
+			}
+			m[kv[i].(string)] = kv[i+1]
+		}
+		line, err := json.Marshal(m)
+		if err != nil {
+			panic(err)
+		}
+		line = append(line, '\n')
+		if _, err := verifTraceFile.Write(line); err != nil {
+			panic(err)
+		}
+	}
+	verifGate(name)
+}
+
+// verifGateCount atomically increments and returns the build-wide counter of
+// an event, kept in a file under GARBLE_VERIF_GATE_DIR.
+func verifGateCount(event string) int {
+	f, err := os.OpenFile(filepath.Join(verifGateDir, event+".count"), os.O_RDWR|os.O_CREATE, 0o666)
+	if err != nil {
+		panic(err)
+	}
+	defer f.Close()
+	if err := syscall.Flock(int(f.Fd()), syscall.LOCK_EX); err != nil {
+		panic(err)
+	}
+	data := make([]byte, 32)
+	n, _ := f.ReadAt(data, 0)
+	count, _ := strconv.Atoi(strings.TrimSpace(string(data[:n])))
+	count++
+	if _, err := f.WriteAt([]byte(strconv.Itoa(count)+"\n"), 0); err != nil {
+		panic(err)
+	}
+	return count
+}
+
+func verifGate(name string) {
+	for _, g := range verifGates {
+		if g.event != name || verifGateDir == "" {
+			continue
+		}
+		count := verifGateCount(g.action + "." + name)
+		if count != g.n {
+			continue
+		}
+		switch g.action {
+		case "crash":
+			// Kill the whole process group: top-level garble, cmd/go, and
+			// every toolexec child, like kill -9 of the process tree.
+			os.WriteFile(filepath.Join(verifGateDir, "crashed"), []byte(name+"\n"), 0o666)
+			syscall.Kill(0, syscall.SIGKILL)
+			time.Sleep(time.Hour)
+		case "hold":
+			base := filepath.Join(verifGateDir, fmt.Sprintf("hold.%s.%d", name, g.n))
+			os.WriteFile(base+".reached", []byte(strconv.Itoa(os.Getpid())+"\n"), 0o666)
+			deadline := time.Now().Add(5 * time.Minute)
+			for time.Now().Before(deadline) {
+				if _, err := os.Stat(base + ".release"); err == nil {
+					break
+				}
+				time.Sleep(5 * time.Millisecond)
+			}
+		}
+	}
+}
+
+// verifHashInput reports the exact bytes which were written to the global
+// hasher since its last Reset; called right after addGarbleToHash sums.
+var verifHashSeen = map[string]bool{}
+
+func verifHashInput(what string) {
+	rec, ok := hasher.(*verifRecordingHash)
+	if !ok {
+		return
+	}
+	data := rec.buf.Bytes()
+	// The leading input hash differs per package; what we care about is what
+	// garble itself adds. The first sha256-or-shorter prefix is printed in hex,
+	// the rest as text.
+	idx := bytes.Index(data, []byte(" GOGARBLE="))
+	tail := ""
+	prefixLen := len(data)
+	if idx >= 0 {
+		tail = string(data[idx:])
+		prefixLen = idx
+	}
+	binID := sharedCache.BinaryContentID
+	hasBin := prefixLen >= len(binID) && bytes.Equal(data[prefixLen-len(binID):prefixLen], binID)
+	key := fmt.Sprintf("%s|%v|%s", what, hasBin, tail)
+	if verifHashSeen[key] {
+		return
+	}
+	verifHashSeen[key] = true
+	verifEvent("hash-input", "what", what, "has_binary_id", hasBin, "tail", tail, "prefix_len", prefixLen)
+}
+
+func verifNameEvent(kind, pkgPath, name, newName string) {
+	if !verifNames {
+		return
+	}
+	key := kind + "|" + pkgPath + "|" + name + "|" + newName
+	if verifHashSeen[key] {
+		return
+	}
+	verifHashSeen[key] = true
+	verifEvent("name", "kind", kind, "pkg", pkgPath, "orig", name, "obf", newName)
+}
+
+// verifCommand implements "garble verif <sub>": each sub-command reads JSON
+// requests, one per line, from stdin and writes one JSON reply per line.
+func verifCommand(args []string) error {
+	if len(args) == 0 {
+		return fmt.Errorf("usage: garble verif hash|split|files|flagvalue|reversecontent|replacer|structhash|reflect")
+	}
+	sub, args := args[0], args[1:]
+	if sub == "reflect" {
+		return verifReflect(args)
+	}
+	in := bufio.NewReaderSize(os.Stdin, 1<<20)
+	out := bufio.NewWriterSize(os.Stdout, 1<<20)
+	defer out.Flush()
+	enc := json.NewEncoder(out)
+	dec := json.NewDecoder(in)
+	for dec.More() {
+		var req map[string]any
+		if err := dec.Decode(&req); err != nil {
+			return err
+		}
+		reply, err := verifHandle(sub, req)
+		if err != nil {
+			reply = map[string]any{"error": err.Error()}
+		}
+		if err := enc.Encode(reply); err != nil {
+			return err
+		}
+	}
+	return nil
+}
+
+func verifStrings(v any) []string {
+	list, _ := v.([]any)
+	out := make([]string, 0, len(list))
+	for _, e := range list {
+		s, _ := e.(string)
+		out = append(out, s)
+	}
+	return out
+}
+
+func verifHandle(sub string, req map[string]any) (reply map[string]any, err error) {
+	defer func() {
+		if r := recover(); r != nil {
+			reply, err = map[string]any{"panic": fmt.Sprint(r)}, nil
+		}
+	}()
+	str := func(k string) string { s, _ := req[k].(string); return s }
+	switch sub {
+	case "hash":
+		// {"salt": hex, "seed": hex, "name": string} -> hashWithCustomSalt
+		salt, err := hex.DecodeString(str("salt"))
+		if err != nil {
+			return nil, err
+		}
+		seed, err := hex.DecodeString(str("seed"))
+		if err != nil {
+			return nil, err
+		}
+		flagSeed.bytes = seed
+		res := hashWithCustomSalt(salt, str("name"))
+		reply := map[string]any{"out": res}
+		if rs, ok := req["randseed"].(float64); ok {
+			rnd := mathrand.New(mathrand.NewSource(int64(rs)))
+			reply["random"] = randomName(rnd, str("name"))
+		}
+		return reply, nil
+	case "split":
+		// {"args": [...]} -> splitFlagsFromArgs, filterForwardBuildFlags, garble-flag test
+		all := verifStrings(req["args"])
+		flags, rest := splitFlagsFromArgs(slices.Clone(all))
+		filtered, firstUnknown := filterForwardBuildFlags(slices.Clone(flags))
+		garbleFlag := ""
+		for _, f := range flags {
+			if rxGarbleFlag.MatchString(f) {
+				garbleFlag = f
+				break
+			}
+		}
+		rejectErr := ""
+		if err := rejectUnknownBuildFlags(slices.Clone(flags)); err != nil {
+			rejectErr = err.Error()
+		}
+		return map[string]any{
+			"flags": verifNonNil(flags), "args": verifNonNil(rest),
+			"forward": verifNonNil(filtered), "first_unknown": firstUnknown,
+			"garble_flag": garbleFlag, "reject": rejectErr, "help": hasHelpFlag(flags),
+		}, nil
+	case "files":
+		flags, paths := splitFlagsFromFiles(verifStrings(req["args"]), str("ext"))
+		return map[string]any{"flags": verifNonNil(flags), "paths": verifNonNil(paths)}, nil
+	case "flagvalue":
+		flags := verifStrings(req["flags"])
+		var all []string
+		for v := range flagValues(flags, str("name")) {
+			all = append(all, v)
+		}
+		reply := map[string]any{"value": flagValue(flags, str("name")), "values": verifNonNil(all)}
+		if v, ok := req["set"].(string); ok {
+			reply["set"] = verifNonNil(flagSetValue(slices.Clone(flags), str("name"), v))
+		}
+		return reply, nil
+	case "reversecontent":
+		repl := strings.NewReplacer(verifStrings(req["pairs"])...)
+		var buf bytes.Buffer
+		modified, err := reverseContent(&buf, strings.NewReader(str("input")), repl)
+		if err != nil {
+			return nil, err
+		}
+		return map[string]any{"out": buf.String(), "modified": modified}, nil
+	case "replacer":
+		r := _makeGenericReplacer(verifStrings(req["pairs"]))
+		return map[string]any{"out": r.Replace(str("input"))}, nil
+	case "structhash":
+		return verifStructHash(str("src"), str("seed"))
+	case "quoted":
+		parts, err := cmdgoQuotedSplit(str("input"))
+		if err != nil {
+			return map[string]any{"err": err.Error()}, nil
+		}
+		return map[string]any{"parts": verifNonNil(parts)}, nil
+	}
+	return nil, fmt.Errorf("unknown verif sub-command %q", sub)
+}
+
+func verifNonNil(s []string) []string {
+	if s == nil {
+		return []string{}
+	}
+	return s
+}
+
+// verifStructHash type-checks a self-contained source file and reports, for
+// every package-level type with a struct underlying type, the struct salt and
+// the obfuscated name of each field.
+func verifStructHash(src, seedHex string) (map[string]any, error) {
+	seed, err := hex.DecodeString(seedHex)
+	if err != nil {
+		return nil, err
+	}
+	flagSeed.bytes = seed
+	if sharedCache == nil {
+		sharedCache = &sharedCacheType{BinaryContentID: []byte("verif-binary-id"), GOGARBLE: "*"}
+	}
+	vfset := token.NewFileSet()
+	file, err := parser.ParseFile(vfset, "src.go", src, parser.SkipObjectResolution)
+	if err != nil {
+		return nil, err
+	}
+	info := &types.Info{
+		Types: make(map[ast.Expr]types.TypeAndValue),
+		Defs:  make(map[*ast.Ident]types.Object),
+		Uses:  make(map[*ast.Ident]types.Object),
+	}
+	conf := types.Config{Importer: importer.Default()}
+	pkg, err := conf.Check("verif/structs", vfset, []*ast.File{file}, info)
+	if err != nil {
+		return nil, err
+	}
+	fieldToStruct := computeFieldToStruct(info)
+	result := map[string]any{}
+	scope := pkg.Scope()
+	for _, name := range scope.Names() {
+		tn, ok := scope.Lookup(name).(*types.TypeName)
+		if !ok {
+			continue
+		}
+		typ := tn.Type()
+		strct, ok := typ.Underlying().(*types.Struct)
+		if !ok {
+			continue
+		}
+		fields := map[string]string{}
+		for field := range strct.Fields() {
+			origin := field.Origin()
+			parent := fieldToStruct[origin]
+			if parent == nil {
+				fields[field.Name()] = "<nostruct>"
+				continue
+			}
+			fields[field.Name()] = hashWithStruct(parent, origin)
+		}
+		result[name] = map[string]any{
+			"salt":   strconv.FormatUint(uint64(typeutil_hash(strct)), 10),
+			"fields": fields,
+		}
+	}
+	return result, nil
+}
+
+// verifReflect runs the real reflection analysis (checkFunction and everything
+// below it) over one listed package, visiting the package members in an order
+// chosen by the caller instead of Go's random map order:
+//
+//	garble verif reflect -order=sorted|reverse|seed:N [build flags] package
+//
+// Only the outer member loop and the pass loop of recordReflection are
+// re-implemented here, as copies of the code in reflect.go.
+func verifReflect(args []string) error {
+	order := "sorted"
+	if len(args) > 0 && strings.HasPrefix(args[0], "-order=") {
+		order = strings.TrimPrefix(args[0], "-order=")
+		args = args[1:]
+	}
+	flags, pkgs := splitFlagsFromArgs(args)
+	_, err := toolexecCmd("list", append(flags, pkgs...))
+	defer os.RemoveAll(os.Getenv("GARBLE_SHARED"))
+	if err != nil {
+		return err
+	}
+	fsCache, err := openCache()
+	if err != nil {
+		return err
+	}
+	var target *listedPackage
+	for _, lpkg := range sharedCache.ListedPackages.all() {
+		if lpkg.Name == "main" && lpkg.ToObfuscate && !lpkg.Standard {
+			target = lpkg
+		}
+	}
+	if target == nil {
+		return fmt.Errorf("no main package found")
+	}
+	files, err := parseFiles(target, target.Dir, target.CompiledGoFiles, false)
+	if err != nil {
+		return err
+	}
+	pkg, info, err := typecheck(target.ImportPath, files, importerForPkg(target), true)
+	if err != nil {
+		return err
+	}
+	// Dependencies: the real recursive computation, through the real cache.
+	computed := pkgCache{
+		ReflectAPIs: map[string]map[int]bool{
+			"reflect.TypeOf":  {0: true},
+			"reflect.ValueOf": {0: true},
+		},
+		ReflectObjectNames: map[string]string{},
+	}
+	for _, imp := range target.Imports {
+		dep, err := listPackage(target, imp)
+		if err != nil {
+			return err
+		}
+		if dep.BuildID == "" || !dep.hasDep("reflect") && dep.ImportPath != "reflect" {
+			continue
+		}
+		dfiles, err := parseFiles(dep, dep.Dir, dep.CompiledGoFiles, true)
+		if err != nil {
+			return err
+		}
+		dpkg, dinfo, err := typecheck(dep.ImportPath, dfiles, importerForPkg(dep), true)
+		if err != nil {
+			return err
+		}
+		depCache, err := loadPkgCache(dep, dpkg, dfiles, dinfo, nil)
+		if err != nil {
+			return err
+		}
+		computed.CopyFrom(depCache)
+	}
+	_ = fsCache
+	ri := reflectInspector{
+		lpkg:            target,
+		pkg:             pkg,
+		checkedAPIs:     make(map[string]bool),
+		propagatedInstr: map[ssa.Instruction]bool{},
+		result:          computed,
+	}
+	ssaPkg := ssaBuildPkg(pkg, files, info)
+	names := make([]string, 0, len(ssaPkg.Members))
+	for name := range ssaPkg.Members {
+		names = append(names, name)
+	}
+	sort.Strings(names)
+	switch {
+	case order == "reverse":
+		slices.Reverse(names)
+	case strings.HasPrefix(order, "seed:"):
+		n, _ := strconv.ParseInt(strings.TrimPrefix(order, "seed:"), 10, 64)
+		mathrand.New(mathrand.NewSource(n)).Shuffle(len(names), func(i, j int) { names[i], names[j] = names[j], names[i] })
+	case strings.HasPrefix(order, "list:"):
+		// explicit order of the named members first, the rest sorted after them
+		first := strings.Split(strings.TrimPrefix(order, "list:"), ",")
+		rest := slices.DeleteFunc(slices.Clone(names), func(n string) bool { return slices.Contains(first, n) })
+		names = append(first, rest...)
+	}
+	passes := 0
+	for {
+		passes++
+		prevDone := len(ri.result.ReflectAPIs) + len(ri.result.ReflectObjectNames)
+		notChecked := make(map[string]bool)
+		for api := range ri.result.ReflectAPIs {
+			if !ri.checkedAPIs[api] {
+				notChecked[api] = true
+			}
+		}
+		for _, name := range names {
+			switch x := ssaPkg.Members[name].(type) {
+			case *ssa.Type:
+				method := func(mset *types.MethodSet) {
+					for at := range mset.Methods() {
+						if m := ssaPkg.Prog.MethodValue(at); m != nil {
+							ri.checkFunction(m)
+						} else {
+							ri.checkInterfaceMethod(at.Obj().(*types.Func))
+						}
+					}
+				}
+				method(ssaPkg.Prog.MethodSets.MethodSet(x.Type()))
+				method(ssaPkg.Prog.MethodSets.MethodSet(types.NewPointer(x.Type())))
+			case *ssa.Function:
+				ri.checkFunction(x)
+			}
+		}
+		for api := range notChecked {
+			ri.checkedAPIs[api] = true
+		}
+		if len(ri.result.ReflectAPIs)+len(ri.result.ReflectObjectNames) <= prevDone {
+			break
+		}
+	}
+	// Report only what belongs to the target package: original names kept.
+	kept := map[string]bool{}
+	for _, orig := range ri.result.ReflectObjectNames {
+		kept[orig] = true
+	}
+	apis := map[string][]int{}
+	for name, params := range ri.result.ReflectAPIs {
+		if !strings.Contains(name, target.ImportPath+".") && !strings.HasPrefix(name, "main.") && !strings.Contains(name, "main.") {
+			continue
+		}
+		for p := range params {
+			apis[name] = append(apis[name], p)
+		}
+		sort.Ints(apis[name])
+	}
+	keptList := make([]string, 0, len(kept))
+	for k := range kept {
+		keptList = append(keptList, k)
+	}
+	sort.Strings(keptList)
+	return json.NewEncoder(os.Stdout).Encode(map[string]any{
+		"order": names, "passes": passes, "kept": keptList, "apis": apis,
+		"names": ri.result.ReflectObjectNames,
+	})
+}
